@@ -413,7 +413,7 @@ def _prev_woken(S, e):
 
 def run(ctx):
     rng = ctx.rng
-    total = ctx.n(320, 15000)
+    total = ctx.n(1000, 15000)
     per_base = ctx.n(40, 100)
     batch = []
     n = 0
